@@ -142,11 +142,12 @@ def main(tier, seed, replay=None):
         lit = [gs(5).replace("{", "").replace("}", "") for _ in range(3)]
         x = rnd.choice([0, 7, -12, 255, 10 ** 12])
         y = rnd.choice(["", "a", "a'b", "q{z}", "{", "}", "é\t", "\\", '"'])
-        z = rnd.choice([1.5, -0.25, 3.14159, 100.0, 2.0])
+        z = rnd.choice([1.5, -0.25, 3.14159, 100.0, 2.0, 2.71828, -7.891, 0.5])
         w = rnd.randint(0, 8)
         spec, exp = rnd.choice([("{x}", str(x)), ("{y}", y), ("{z}", repr(z)), ("{x#%d}" % w, str(x).rjust(w)), ("{x#-%d}" % w, str(x).ljust(w)),
                                 ("{x#0%d}" % w, "0" * max(0, w - len(str(x))) + str(x)), ("{y#%d}" % w, y.rjust(w)), ("{y#-%d}" % w, y.ljust(w)),
-                                ("{z#.1}", str(round(z, 1))), ("{z#%d.2}" % w, str(round(z, 2)).rjust(w)), ("{x#x}", "%x" % x if x >= 0 else "-%x" % -x)])
+                                ("{z#.1}", str(round(z, 1))), ("{z#%d.2}" % w, str(round(z, 2)).rjust(w)), ("{z#.0}", str(round(z, 0))), ("{z#%d.0}" % w, str(round(z, 0)).rjust(w)),
+                                ("{z#.3}", str(round(z, 3))), ("{z#-%d.1}" % w, str(round(z, 1)).ljust(w)), ("{x#x}", "%x" % x if x >= 0 else "-%x" % -x)])
         tmpl = lit[0] + spec + lit[1]
         chk("s", run("s(t)", t=tmpl, x=x, y=y, z=z), lit[0] + exp + lit[1], template=tmpl, x=x, y=y, z=z)
         a = rnd.choice([x, y, z])
